@@ -803,7 +803,7 @@ pub(crate) fn add_sequence_pop<W, R, T>(
             let a1 = xraise!(eval(&args[1], ns, &rt)?);
             let seq0 = to_native!(a0, XSequence<W, R, T>);
             let Some(len0) = seq0.len() else { return xerr(ManagedXError::new("sequence is infinite", rt)?); };
-            rt.can_allocate((len0 - 1)* size_of::<usize>())?;
+            rt.can_allocate(len0.saturating_sub(1) * size_of::<usize>())?;
             let idx = to_primitive!(a1, Int);
             let idx = xraise!(seq0.value_to_idx(idx, rt.clone())?);
             if len0 == 1 {
